@@ -272,10 +272,94 @@ pub fn type_family(kind: &str, depth: usize, vars: usize) -> Shape {
 
 // ---------------------------------------------------------------------------------------------
 
+/// Size families: hundreds of bindings / members / structs / entry points / consts (linear-size inputs that
+/// must stay well under a second whatever the per-item work is).
+pub fn scale_family(kind: &str, n: usize) -> Shape {
+    let mut src = String::new();
+    let (mut e, mut f, mut c, mut g, mut t, mut m) = (1u64, 1u64, 0u64, 0u64, 2u64, 0u64);
+    match kind {
+        "bindings" => {
+            for i in 0..n {
+                src.push_str(&format!("@group({}) @binding({}) var<uniform> ub{i}: vec4<f32>;\n", i % 4, i / 4));
+            }
+            g = n as u64;
+            let uses: Vec<String> = (0..n).map(|i| format!("    acc += ub{i}.x;\n")).collect();
+            src.push_str(&format!("@compute @workgroup_size(1) fn cs_main() {{\n    var acc: f32 = 0.0;\n{}}}\n", uses.concat()));
+        }
+        "members" => {
+            let ms: Vec<String> = (0..n).map(|i| format!("m{i}: vec4<f32>")).collect();
+            src.push_str(&format!("struct Big {{ {} }};\n@group(0) @binding(0) var<storage, read> big: Big;\n@compute @workgroup_size(1) fn cs_main() {{ let x = big.m0; }}\n", ms.join(", ")));
+            g = 1;
+            t = 3;
+            m = n as u64;
+        }
+        "structs" => {
+            for i in 0..n {
+                src.push_str(&format!("struct S{i} {{ a: vec4<f32>, b: f32 }};\n@group({}) @binding({}) var<uniform> v{i}: S{i};\n", i % 4, i / 4));
+            }
+            src.push_str("@compute @workgroup_size(1) fn cs_main() { let x = v0.a; }\n");
+            g = n as u64;
+            t = n as u64 + 3;
+            m = 2 * n as u64;
+        }
+        "vertex-structs" => {
+            let mut params = vec![];
+            for i in 0..n.min(12) {
+                src.push_str(&format!("struct VI{i} {{ @location({}) a: vec4<f32>, @location({}) b: vec2<f32> }};\n", 2 * i, 2 * i + 1));
+                params.push(format!("p{i}: VI{i}"));
+            }
+            for k in 0..n {
+                src.push_str(&format!("@vertex fn vs_{k}({}) -> @builtin(position) vec4<f32> {{ return p0.a; }}\n", params.join(", ")));
+            }
+            e = n as u64;
+            f = n as u64;
+        }
+        "entries" => {
+            src.push_str("@group(0) @binding(0) var<uniform> leaf: vec4<f32>;\nfn shared_a() -> f32 { return leaf.x; }\nfn shared_b() -> f32 { return shared_a() + shared_a(); }\n");
+            for k in 0..n {
+                match k % 3 {
+                    0 => src.push_str(&format!("@compute @workgroup_size(1) fn cs_{k}() {{ let x = shared_b(); }}\n")),
+                    1 => src.push_str(&format!("@vertex fn vs_{k}() -> @builtin(position) vec4<f32> {{ return vec4<f32>(shared_b()); }}\n")),
+                    _ => src.push_str(&format!("@fragment fn fs_{k}() -> @location(0) vec4<f32> {{ return vec4<f32>(shared_b()); }}\n")),
+                }
+            }
+            e = n as u64;
+            f = n as u64 + 2;
+            c = 2 * n as u64 + 2;
+            g = 1;
+        }
+        "consts-overrides" => {
+            for i in 0..n {
+                src.push_str(&format!("const K{i}: f32 = {i}.5;\noverride o{i}: f32 = {i}.0;\n"));
+            }
+            src.push_str("@vertex fn vs_main() -> @builtin(position) vec4<f32> { return vec4<f32>(K0 + o0); }\n@fragment fn fs_main() -> @location(0) vec4<f32> { return vec4<f32>(o1); }\n");
+            e = 2;
+            f = 2;
+        }
+        "array-nesting" => {
+            // array<array<...<vec4<f32>, 2>, 2>...> nested n deep inside one struct member
+            let mut ty = "vec4<f32>".to_string();
+            for _ in 0..n {
+                ty = format!("array<{ty}, 2>");
+            }
+            src.push_str(&format!("struct Deep {{ a: {ty}, b: {ty} }};\n@group(0) @binding(0) var<storage, read> deep: Deep;\n@compute @workgroup_size(1) fn cs_main() {{ }}\n"));
+            g = 1;
+            t = n as u64 + 3;
+            m = 2 * n as u64 + 2;
+        }
+        _ => unreachable!(),
+    }
+    Shape { key: format!("scale|{kind}|n={n}"), src, e, f, c, g, t, m, helpers_reachable: false }
+}
+
 pub fn check(s: &Shape, rep: &mut Report) {
     rep.states += 1;
     rep.transitions += s.f + s.c + s.t + s.m;
-    if let Err(e) = naga_check(&s.src) {
+    let t_ref = std::time::Instant::now();
+    let naga_result = naga_check(&s.src);
+    // same-size reference measured in the same thread under the same load: naga's own parse + validation
+    let naga_s = t_ref.elapsed().as_secs_f64();
+    if let Err(e) = naga_result {
         rep.filtered(&format!("naga rejects: {}", e.replace('\n', " ").chars().take(70).collect::<String>()));
         if std::env::var("VERIF_DEBUG").is_ok() {
             eprintln!("FILTERED {}: {e}\n{}", s.key, s.src);
@@ -308,8 +392,12 @@ pub fn check(s: &Shape, rep: &mut Report) {
         }
         Outcome::Ok(_) => {
             rep.outcomes.insert(format!("ok fn<= {} ty<= {}", fv.next_power_of_two(), tv.next_power_of_two()));
-            if wall > 2.0 {
-                rep.violation(s.key.clone(), format!("generation took {wall:.1}s in-process (> 2 s) within step budgets"), detail);
+            let limit = (50.0 * naga_s).max(2.0);
+            if wall > limit {
+                rep.violation(s.key.clone(), format!("generation took {wall:.1}s in-process (limit {limit:.1}s = max(2 s, 50 x naga's own parse+validate of the same source)) within step budgets"), detail);
+            }
+            if s.key.starts_with("scale|") {
+                rep.count(&format!("scale family wall ms <= {}", ((wall * 1000.0) as u64).next_power_of_two()));
             }
             if s.helpers_reachable && fv == 0 {
                 rep.filtered("instrumentation lost: zero walk:function visits (wall clock decides alone)");
@@ -367,6 +455,12 @@ pub fn space(thorough: bool) -> Vec<Shape> {
     for w in [10, 100, 300] {
         for vars in [1, 8, 64] {
             out.push(type_family("wide", w, vars));
+        }
+    }
+    // size families
+    for (kind, sizes) in [("bindings", vec![64, 400, 1000]), ("members", vec![64, 300, 1000]), ("structs", vec![64, 300]), ("vertex-structs", vec![8, 32, 64]), ("entries", vec![16, 64, 200]), ("consts-overrides", vec![64, 300]), ("array-nesting", vec![4, 8, 12, 16])] {
+        for n in sizes {
+            out.push(scale_family(kind, n));
         }
     }
     out
@@ -479,7 +573,7 @@ pub fn run(tier: &str) -> i32 {
     }
     rep.set("wall_clock_children", json!(wall));
     rep.traces_validated = rep.evaluations;
-    rep.rule = format!("(1) every tile: DAG on <= {} helpers with each forward edge in {{absent, 1 statement call, 1 value call, 2 statement calls, 2 value calls, 1+1 mixed}}, composed {}x in series; (2) chain / diamond / 3-fold fan-in / fan-out families at depths {:?} with every call form at every placement context, plus 4-entry and 290-function members; (3) nested two-/three-member struct types to depth 24/40, wide structs, many variables sharing one type. Oracle: walk:function visits <= 8*E*(F+C+1), walk:type visits <= 8*G*(T+M+1) (hook aborts at the budget); wall clock of amplified members in child processes <= max(2 s, 200 x same-size flat shader).", 4, if thorough { 16 } else { 8 }, if thorough { vec![8, 16, 32, 64] } else { vec![16, 64] });
+    rep.rule = format!("(1) every tile: DAG on <= {} helpers with each forward edge in {{absent, 1 statement call, 1 value call, 2 statement calls, 2 value calls, 1+1 mixed}}, composed {}x in series; (2) chain / diamond / 3-fold fan-in / fan-out families at depths {:?} with every call form at every placement context, plus 4-entry and 290-function members; (3) nested two-/three-member struct types to depth 24/40, wide structs, many variables sharing one type; (4) size families: up to 1000 bindings / 1000 members / 300 structs / 64 vertex entries x 12 structs / 200 entry points sharing helpers / 300 consts+overrides / arrays nested 16 deep, each under 2 s. Oracle: walk:function visits <= 8*E*(F+C+1), walk:type visits <= 8*G*(T+M+1) (hook aborts at the budget); wall clock of amplified members in child processes <= max(2 s, 200 x same-size flat shader).", 4, if thorough { 16 } else { 8 }, if thorough { vec![8, 16, 32, 64] } else { vec![16, 64] });
     rep.assumptions.push("step counts come from the verif-hooks points at the top of the two recursive walks; if a refactor removes them the wall-clock part decides alone".into());
     rep.finish()
 }
